@@ -134,8 +134,67 @@ def check_result(x, y, terms):
     return None
 
 
+WORLD = None
+
+
+def work(item):
+    """one scenario -> dict(label, obs, key, sig, kw)"""
+    import hashlib
+    st = item
+    W = WORLD
+    cont, f, at, ag, rs = st['scn']
+    exp = st['out']
+    x = W.fresh(cont)
+    before = fingerprint(x)
+    kw = dict(channels=render_ch(f), amplification_type=render_arg('at', at), amplifier_gain=render_arg('ag', ag),
+              resolution=render_arg('res', rs))
+    try:
+        with warnings.catch_warnings():
+            warnings.simplefilter('ignore')
+            y = FlowCal.transform.to_rfi(x, **kw)
+        obs = 'ok'
+    except Exception as e:  # noqa
+        y = None
+        obs = 'raises:' + type(e).__name__
+    lab = None
+    key = sig = None
+    if fingerprint(x) != before:
+        lab = 'input-mutated'
+    elif exp['k'] == 'refused':
+        lab = None if y is None else 'accepted'
+    elif y is None:
+        lab = obs
+    else:
+        lab = check_result(x, y, exp['terms'])
+        if lab is None:
+            key = (cont, json.dumps(exp['terms']))
+            sig = hashlib.sha1(np.asarray(y.view(np.ndarray)).tobytes() + (json.dumps(y.range()) if hasattr(y, 'range') else '').encode()).hexdigest()
+        if lab is None and f['t'] == 'list' and len(f['cols']) <= 3:
+            req = list(f['cols'])
+            elems = render_ch(f)
+            for perm in itertools.permutations(range(len(req))):
+                z = x
+                for j in perm:
+                    zin, zfp = z, fingerprint(z)
+                    z = FlowCal.transform.to_rfi(
+                        z, elems[j],
+                        amplification_type=None if kw['amplification_type'] is None else kw['amplification_type'][j],
+                        amplifier_gain=None if kw['amplifier_gain'] is None else kw['amplifier_gain'][j],
+                        resolution=None if kw['resolution'] is None else kw['resolution'][j])
+                    if fingerprint(zin) != zfp:
+                        lab = 'intermediate-input-mutated'
+                if lab:
+                    break
+                if np.asarray(z.view(np.ndarray)).tobytes() != np.asarray(y.view(np.ndarray)).tobytes() or \
+                        (hasattr(y, 'range') and json.dumps(z.range()) != json.dumps(y.range())):
+                    lab = 'sequential!=batch'
+                    break
+    return {'lab': lab, 'obs': obs, 'key': key, 'sig': sig, 'kw': {k: repr(v) for k, v in kw.items()}}
+
+
 def main(chk, replay=None):
-    chk.rule = ('GEN: 3 containers x 97 channel forms x 7 shapes for each of amplification_type / amplifier_gain / '
+    global WORLD
+    chk.rule = ('GEN: 5 containers x 97 channel forms x 7 shapes for each of amplification_type / amplifier_gain / '
                 'resolution (none, full list, partial list, wrong lengths, scalar); non-trivial = a conversion that changes '
                 'at least one column, or a refusal caused by argument shapes')
     chk.assumptions = ['TLC, value parser', 'law identified by the documented formula evaluated in float64, rtol 2e-14',
@@ -143,85 +202,48 @@ def main(chk, replay=None):
     if replay:
         print(json.dumps(replay, indent=1)[:3000])
         return
-    W = World()
+    WORLD = World()
     cfg = 'SPECIFICATION Spec\nINVARIANT OnlyRequested\nINVARIANT BatchIsSequential\nINVARIANT LengthMismatchRefused\n'
     res = tlc.require_ok(tlc.run_tlc('Gen_C03', cfg, dump=True), 'Gen_C03')
     chk.add_tlc(res, 'Gen_C03')
-    neg = False
-    same_result = {}
-    step = 1 if not chk.quick else 1
+    items = []
     for i, st in enumerate(res.dump_states()):
         if st['stage'] != 100:
             continue
+        if chk.quick and st['out']['k'] == 'refused' and (i + chk.seed) % 4 != 0:
+            continue        # quick tier: every accepted call, a quarter of the refused ones
+        items.append(st)
+    import multiprocessing as mp
+    with mp.get_context('fork').Pool(min(16, os.cpu_count() or 1)) as pool:
+        outs = pool.map(work, items, chunksize=400)
+    same_result = {}
+    for st, o in zip(items, outs):
         cont, f, at, ag, rs = st['scn']
         exp = st['out']
-        if chk.quick and exp['k'] == 'refused' and (i + chk.seed) % 4 != 0:
-            continue        # quick tier: every accepted call, a quarter of the refused ones
-        x = W.fresh(cont)
-        before = fingerprint(x)
-        kw = dict(channels=render_ch(f), amplification_type=render_arg('at', at), amplifier_gain=render_arg('ag', ag),
-                  resolution=render_arg('res', rs))
-        try:
-            with warnings.catch_warnings():
-                warnings.simplefilter('ignore')
-                y = FlowCal.transform.to_rfi(x, **kw)
-            obs = 'ok'
-        except Exception as e:  # noqa
-            y = None
-            obs = 'raises:' + type(e).__name__
-        lab = None
-        if fingerprint(x) != before:
-            lab = 'input-mutated'
-        elif exp['k'] == 'refused':
-            lab = None if y is None else 'accepted'
-        elif y is None:
-            lab = obs
-        else:
-            lab = check_result(x, y, exp['terms'])
-            if lab is None and not neg and any(exp['terms']):
-                bad = json.loads(json.dumps(exp['terms']))
-                c = [j for j, t in enumerate(bad) if t][0]
-                if bad[c][0]['k'] == 'log':
-                    bad[c][0]['r'] -= 1
-                else:
-                    bad[c][0]['g'] = [bad[c][0]['g'][0] + 1, bad[c][0]['g'][1]]
-                chk.negative_control(check_result(x, y, bad) is not None, 'C03 term identification accepts r-1 / g+1')
-                neg = True
-            if lab is None:
-                # identical results for every spelling / ordering of the same request
-                key = (cont, json.dumps(exp['terms']))
-                sig = (np.asarray(y.view(np.ndarray)).tobytes(), json.dumps(y.range()) if hasattr(y, 'range') else '')
-                if key in same_result and same_result[key] != sig:
-                    lab = 'differs-from-other-spelling-or-order'
-                same_result.setdefault(key, sig)
-            if lab is None and f['t'] == 'list' and len(f['cols']) <= 3:
-                req = list(f['cols'])
-                elems = render_ch(f)
-                for perm in itertools.permutations(range(len(req))):
-                    z = x
-                    for j in perm:
-                        zin, zfp = z, fingerprint(z)
-                        z = FlowCal.transform.to_rfi(
-                            z, elems[j],
-                            amplification_type=None if kw['amplification_type'] is None else kw['amplification_type'][j],
-                            amplifier_gain=None if kw['amplifier_gain'] is None else kw['amplifier_gain'][j],
-                            resolution=None if kw['resolution'] is None else kw['resolution'][j])
-                        if fingerprint(zin) != zfp:
-                            lab = 'intermediate-input-mutated'
-                    if lab:
-                        break
-                    if np.asarray(z.view(np.ndarray)).tobytes() != np.asarray(y.view(np.ndarray)).tobytes() or \
-                            (hasattr(y, 'range') and json.dumps(z.range()) != json.dumps(y.range())):
-                        lab = 'sequential!=batch'
-                        break
+        lab = o['lab']
+        if lab is None and o['key'] is not None:
+            # identical results for every spelling / ordering of the same request
+            if o['key'] in same_result and same_result[o['key']] != o['sig']:
+                lab = 'differs-from-other-spelling-or-order'
+            same_result.setdefault(o['key'], o['sig'])
         nontriv = (exp['k'] == 'ok' and any(exp['terms'])) or (exp['k'] == 'refused' and not cont.startswith('array'))
         chk.case(('c03', json.dumps(st['scn'])), nontrivial=nontriv,
-                 sample={'scenario': st['scn'], 'call': {k: repr(v) for k, v in kw.items()}, 'expected': exp, 'observed': obs}
-                 if chk.traces % 9001 == 77 else None)
+                 sample={'scenario': st['scn'], 'call': o['kw'], 'expected': exp, 'observed': o['obs']} if chk.traces % 9001 == 77 else None)
         chk.traces += 1
         if lab is not None:
-            chk.violation('C03/%s/%s/%s' % (cont, f['t'], lab), {'scenario': st['scn'], 'call': {k: repr(v) for k, v in kw.items()}},
-                          exp, obs)
+            chk.violation('C03/%s/%s/%s' % (cont, f['t'], lab), {'scenario': st['scn'], 'call': o['kw']}, exp, o['obs'])
+    # negative control: the term identification must tell r from r-1 and g from g+1
+    x = WORLD.fresh('sample')
+    y = FlowCal.transform.to_rfi(x, [0, 2])
+    good = [[{'k': 'log', 'a0': [4, 1], 'a1': [1, 1], 'r': 1024, 'g': [], 'id': 0}], [], [{'k': 'lin', 'a0': [], 'a1': [], 'r': 0, 'g': [4, 1], 'id': 0}]]
+    bad1 = json.loads(json.dumps(good))
+    bad1[0][0]['r'] = 1023
+    bad2 = json.loads(json.dumps(good))
+    bad2[2][0]['g'] = [5, 1]
+    if check_result(x, y, good) is not None:
+        raise tlc.MachineryError('C03 negative control: reference terms are not accepted')
+    chk.negative_control(check_result(x, y, bad1) is not None and check_result(x, y, bad2) is not None,
+                         'C03 term identification accepts r-1 / g+1')
     chk.exhaustive = True
 
 
